@@ -34,7 +34,10 @@ def plan(tier, seed):
     n = 16
     units = [{"kind": "decls", "shard": i, "of": n, "pairwise": tier == "thorough"} for i in range(n)]
     if ONLINE:
-        units += [{"kind": "online", "n": 40 if tier == "quick" else 600, "shard": i} for i in range(4 if tier == "quick" else 16)]
+        # mixed-profile histories (every op kind) and 'sat' histories (XML mutators next to schema-permitted siblings python-pptx
+        # never writes: ops.op_saturate / ops.sat_select), both judged by monitor M-INS only
+        units += [{"kind": "online", "n": 40 if tier == "quick" else 600, "shard": i, "profile": "mixed"} for i in range(0, 4 if tier == "quick" else 16, 2)]
+        units += [{"kind": "online", "n": 40 if tier == "quick" else 300, "shard": i, "profile": "sat"} for i in range(1, 16 if tier == "quick" else 64, 2)]
     return units
 
 
